@@ -179,8 +179,70 @@ def _build_prepend_zero(name, pre):
     return build
 
 
+def _f_nodefault(freq, amp=0.1, cutoff=None):
+    # parameters without a default: their value comes from metadata specs, when there are any
+    Out.ar(0, LPF.ar(Saw.ar(freq), cutoff) * amp)
+
+
+def _plain(name, f, *a):
+    """A definition built WITHOUT variants / metadata owns fresh, empty ones."""
+    def build():
+        sd = SynthDef(name, f, *a)
+        if sd.variants != {} or sd.metadata != {}:
+            raise SilentDrop('a definition built without variants/metadata has variants %r, metadata keys %r'
+                             % (sd.variants, sorted(sd.metadata)))
+        return sd
+    return build
+
+
+def use_built_definitions(defs):
+    """Ordinary use of ALREADY BUILT definitions through their public interface: annotate them (variants and
+    metadata are user-owned dictionaries, read lazily by as_bytes / add), serialise, describe, add to the
+    library.  Nothing of this may change what later builds produce."""
+    from sc3.synth.spec import spec
+    log = []
+    for k, sd in enumerate(defs):
+        try:
+            names = [c.name for c in sd._all_control_names if isinstance(c.name, str)]
+            sd.variants['low%d' % (k % 3)] = {n: 110 + k for n in names[:2]} or {'freq': 110}
+            sd.variants['low'] = {'freq': 55, 'amp': 0, 'cutoff': 300}
+            sd.metadata['specs'] = {'freq': spec('freq'), 'cutoff': spec('freq'), 'amp': spec('amp')}
+            sd.metadata['verif'] = [k]
+            sd._bytes = None if hasattr(sd, '_bytes') else None
+            bytes(sd.as_bytes())
+            sd.dump_ugens() if False else None
+            _ = (sd.name, sd.func, sd.variants, sd.metadata)
+            if k % 2 == 0:
+                sd.add()
+            log.append('ok')
+        except Exception as e:
+            log.append(type(e).__name__ + ':' + str(e)[:60])
+    return log
+
+
+_OWNED = ('_variants', '_metadata', '_children', '_constants', '_constant_set', '_controls', '_control_names',
+          '_all_control_names', '_available', '_width_first_ugens', '_callable_args')
+
+
+def alias_report(defs, shared_ok=()):
+    """Mutable objects owned by one definition that are the very same object in another one."""
+    seen, out = {}, []
+    ok = set(id(x) for x in shared_ok)
+    for sd in defs:
+        for a in _OWNED:
+            v = getattr(sd, a, None)
+            if isinstance(v, (list, dict, set)) and id(v) not in ok:
+                if id(v) in seen and seen[id(v)][0] is not sd:
+                    out.append('%s.%s is %s.%s' % (sd.name, a, seen[id(v)][0].name, seen[id(v)][1]))
+                seen.setdefault(id(v), (sd, a))
+    return out[:6]
+
+
 def good():
     return [
+        ('nodefault', _plain('x_nodef', _f_nodefault)),
+        ('plain_three', _plain('x_plain3', _f_three)),
+        ('plain_wrap', _plain('x_plainw', _f_wrap)),
         ('prepend_zero_list', _build_prepend_zero('x_pre0l', [0])),
         ('prepend_zero_scalar', _build_prepend_zero('x_pre0s', 0)),
         ('prepend_zero_float', _build_prepend_zero('x_pre0f', 0.0)),
